@@ -3,6 +3,8 @@
 From V Require Import Base.Util Gql.Ast Gql.RefExec Model.Perm Model.SkipInclude Model.PermFilter Model.Plan Model.MergeRes Model.Shape Model.Gateway.
 
 Record obs_request := {
+  or_varnames : list string;                        (* keys of the "variables" object that was sent *)
+  or_declared : list string;                        (* variables declared by the document *)
   or_url : string; or_optype : string; or_keyword : opkind; or_valid : bool;
   or_root : string; or_doc : list sel;
   or_is_lookup : bool; or_parent : string; or_sel : list sel; or_ids : list string;
@@ -15,6 +17,8 @@ Record e2e_case := {
   ec_op : operation; ec_vars : env; ec_perm : option operm; ec_max : nat; ec_fuel : nat;
   ec_faults : list (string * string * fault);       (* url, "root" | parent type | "*", fault *)
   ec_conforming : bool;
+  ec_failing : list string;                         (* services ALL of whose requests are failed by ec_faults *)
+  obs_data0 : option json;                          (* the fault-free answer to the same request over the same data, if taken *)
   obs_requests : list obs_request;
   obs_data : option json;
   obs_errors : list obs_error
@@ -40,7 +44,7 @@ Fixpoint sel_paths (prefix : string) (s : sel) {struct s} : list string :=
   | SField al n ar ds _ oss =>
       let me := prefix +++ "/" +++ al +++ ":" +++ n +++ "(" +++ args_str ar +++ ")" +++ dirs_str ds in
       match oss with
-      | None => [me]
+      | None | Some [] => [me]         (* format.go:161 prints braces only for a non-empty selection set *)
       | Some ss => (me +++ "{}") :: flat_map (sel_paths me) ss
       end
   | SInline tc ds _ ss => flat_map (sel_paths (prefix +++ "/~" +++ tc +++ dirs_str ds)) ss
@@ -50,9 +54,11 @@ Definition ss_paths (ss : list sel) : list string := flat_map (sel_paths "") ss.
 
 Definition req_key_eqb (a b : string * opkind * string * list string * list string) : bool :=
   let '(u, k, p, ids, paths) := a in let '(u', k', p', ids', paths') := b in
-  String.eqb u u' && opkind_eqb k k' && String.eqb p p' && multiset_eqb String.eqb ids ids' && multiset_eqb String.eqb paths paths'.
+  String.eqb u u' && opkind_eqb k k' && String.eqb p p' && multiset_eqb String.eqb ids ids' &&
+  (* a received document that does not even parse (an empty fragment body was printed) is compared by its envelope only *)
+  (match paths' with ["<unparsable>"] => true | _ => multiset_eqb String.eqb paths paths' end).
 Definition model_req_key (r : request) := (rq_url r, rq_optype r, rq_parent r, rq_ids r, ss_paths (rq_sel r)).
-Definition obs_req_key (r : obs_request) := (or_url r, or_keyword r, or_parent r, or_ids r, ss_paths (or_sel r)).
+Definition obs_req_key (r : obs_request) := (or_url r, or_keyword r, or_parent r, or_ids r, match or_doc r with [] => ["<unparsable>"] | _ => ss_paths (or_sel r) end).
 
 Definition fault_for (faults : list (string * string * fault)) (rq : request) : option fault :=
   let target := match rq_lookup rq with Some _ => rq_parent rq | None => "root" end in
@@ -61,7 +67,7 @@ Definition fault_for (faults : list (string * string * fault)) (rq : request) : 
 
 Definition erase_idx (p : list pe) : list pe := filter (fun e => match e with PName _ => true | PIdx _ => false end) p.
 Definition path_eqb (a b : list pe) : bool := list_eqb pe_eqb a b.
-Definition err_key_eqb (a b : ekind * list pe) : bool := ekind_eqb (fst a) (fst b) && path_eqb (snd a) (snd b).
+Definition err_key_eqb (a b : ekind * list pe * bool) : bool := ekind_eqb (fst (fst a)) (fst (fst b)) && path_eqb (snd (fst a)) (snd (fst b)) && Bool.eqb (snd a) (snd b).
 Fixpoint dedupe_by {A} (eqb : A -> A -> bool) (l : list A) : list A :=
   match l with [] => [] | x :: t => if existsb (eqb x) t then dedupe_by eqb t else x :: dedupe_by eqb t end.
 Definition set_eqb {A} (eqb : A -> A -> bool) (a b : list A) : bool :=
@@ -176,6 +182,73 @@ Fixpoint ip_recurring (st : step) (parent_ip_len : nat) : bool :=
                        || ip_recurring ch (List.length ip)) thn
   end.
 
+(* ---------- C05: the faulty answer is the fault-free answer with subtrees replaced by null ---------- *)
+Fixpoint json_below (fuel : nat) (a b : json) {struct fuel} : bool :=   (* a is b with some subtrees nulled *)
+  match fuel with O => false | S fuel =>
+  match a, b with
+  | JNull, _ => true
+  | JArr x, JArr y => Nat.eqb (List.length x) (List.length y) && forallb (fun p => json_below fuel (fst p) (snd p)) (combine x y)
+  | JObj x, JObj y => list_eqb String.eqb (map fst x) (map fst y) &&
+                      forallb (fun p => json_below fuel (snd (fst p)) (snd (snd p))) (combine x y)
+  | _, _ => json_eqb a b
+  end end.
+
+Definition with_failing (sv : server) (l : list string) : server :=
+  {| sv_name := sv_name sv; sv_schema := sv_schema sv; sv_argdefs := sv_argdefs sv; sv_lookups := sv_lookups sv;
+     sv_owner := sv_owner sv; sv_unknown := sv_unknown sv; sv_failing := l |}.
+
+(* ---------- C03: the specification of filtering, from [allows] alone ---------- *)
+Fixpoint spec_filter (a : af) (path : list string) (s : sel) {struct s} : list sel * nat :=
+  let go := fun (path : list string) => fix go (l : list sel) : list sel * nat :=
+    match l with [] => ([], 0) | x :: r => let '(k1, n1) := spec_filter a path x in let '(k2, n2) := go r in (k1 ++ k2, n1 + n2) end in
+  match s with
+  | SField al n ar ds t oss =>
+      if String.eqb n "__typename" || String.eqb n "__schema" || String.eqb n "__type" || allows a (path ++ [n]) then
+        match oss with
+        | None => ([s], 0)
+        | Some ss => let '(k, e) := go (path ++ [n]) ss in ([SField al n ar ds t (Some k)], e)
+        end
+      else ([], 1)
+  | SInline tc ds e ss => let '(k, n) := go path ss in ([SInline tc ds e k], n)
+  | SSpread f ds e tc ss => let '(k, n) := go path ss in ([SSpread f ds e tc k], n)
+  end.
+Definition spec_filter_op (p : option operm) (root : string) (ss : list sel) : list sel * nat :=
+  match p with
+  | None => (ss, 0)
+  | Some pm => let a := if String.eqb root "Mutation" then p_mutation pm else p_query pm in
+               fold_left (fun acc x => let '(k, n) := spec_filter a [] x in (fst acc ++ k, snd acc + n)) ss ([], 0)
+  end.
+(* (parent type, field) pairs of a selection *)
+Fixpoint type_fields (parent : string) (s : sel) {struct s} : list string :=
+  match s with
+  | SField _ n _ _ t oss => (parent +++ "." +++ n) :: match oss with Some ss => flat_map (type_fields (ty_name t)) ss | None => [] end
+  | SInline tc _ _ ss => flat_map (type_fields tc) ss
+  | SSpread _ _ _ tc ss => flat_map (type_fields tc) ss
+  end.
+Fixpoint has_directive (s : sel) : bool :=
+  match s with
+  | SField _ _ _ ds _ oss => negb (match ds with [] => true | _ => false end) || match oss with Some ss => existsb has_directive ss | None => false end
+  | SInline _ ds _ ss | SSpread _ ds _ _ ss => negb (match ds with [] => true | _ => false end) || existsb has_directive ss
+  end.
+Fixpoint sel_vars (s : sel) : list string :=
+  let vv := fix vv (v : value) : list string :=
+    match v with VVar n => [n] | VList l => flat_map vv l | VObj kvs => flat_map (fun kv => vv (snd kv)) kvs | _ => [] end in
+  let av := fun (a : list (string * value)) => flat_map (fun kv => vv (snd kv)) a in
+  let dv := fun (ds : list dir) => flat_map (fun d => av (d_args d)) ds in
+  match s with
+  | SField _ _ ar ds _ oss => av ar ++ dv ds ++ match oss with Some ss => flat_map sel_vars ss | None => [] end
+  | SInline _ ds _ ss => dv ds ++ flat_map sel_vars ss
+  | SSpread _ ds _ _ ss => dv ds ++ flat_map sel_vars ss
+  end.
+
+(* auth.go:172-206: the permission-filtered view lacks a type the (permitted part of the) query refers to *)
+Fixpoint types_used (s : sel) : list string :=
+  match s with
+  | SField _ _ _ _ t (Some ss) => ty_name t :: flat_map types_used ss
+  | SField _ _ _ _ _ None => []
+  | SInline tc _ _ ss | SSpread _ _ _ tc ss => tc :: flat_map types_used ss
+  end.
+
 Definition run_model (c : e2e_case) : res outcome_t :=
   let W := {| w_services := ec_services c; w_data := ec_data c; w_fault := fault_for (ec_faults c) |} in
   let fs := match ec_fschema c with Some s => s | None => g_schema (ec_gen c) end in
@@ -188,6 +261,8 @@ Definition check_e2e_case (c : e2e_case) : list (string * bool) :=
   let S := g_schema (ec_gen c) in
   let fs := match ec_fschema c with Some s => s | None => S end in
   let client_ss := match m with Ok o => oc_op o | Err _ => o_sel (ec_op c) end in
+  (* the client's selection after @skip/@include, before permissions (by the spec's reading of the directives) *)
+  let client_ss0 := match skip_include (ec_vars c) (o_sel (ec_op c)) with Ok x => x | Err _ => o_sel (ec_op c) end in
   let nofault := match ec_faults c with [] => true | _ => false end in
   [ (* --- correspondence: the model against what the code did --- *)
     ("corr.model_runs", is_ok m);
@@ -204,8 +279,8 @@ Definition check_e2e_case (c : e2e_case) : list (string * bool) :=
                                      (match obs_data c with Some j => j | None => JNull end)
                   | Err _ => false end);
     ("corr.errors", match m with
-                    | Ok o => set_eqb err_key_eqb (map (fun e => (ge_kind e, erase_idx (ge_path e))) (r_errors (oc_response o)))
-                                                  (map (fun e => (oe_kind e, erase_idx (oe_path e))) (obs_errors c))
+                    | Ok o => set_eqb err_key_eqb (map (fun e => (ge_kind e, erase_idx (ge_path e), ge_service e)) (r_errors (oc_response o)))
+                                                  (map (fun e => (oe_kind e, erase_idx (oe_path e), oe_names_service e)) (obs_errors c))
                     | Err _ => false end);
     (* the simulators are spec-conformant executors: their reply to each recorded request equals RefExec *)
     ("corr.simulators", forallb (fun r =>
@@ -214,8 +289,11 @@ Definition check_e2e_case (c : e2e_case) : list (string * bool) :=
         | None => if negb (or_valid r) then match lookup (or_url r) (ec_services c) with
                                              | Some sv => negb (valid_doc (sv_schema sv) (or_root r) (or_doc r)) | None => false end else
           match lookup (or_url r) (ec_services c) with
-          | Some sv => let '(j, es) := exec_op sv (ec_data c) (ec_vars c) (ec_fuel c) (or_root r) (or_doc r) in
-                       option_eqb json_eqb (Some j) (or_reply_data r) && Nat.eqb (List.length es) (or_reply_nerrs r)
+          | Some sv => match or_reply_data r with
+                       | None => true       (* the request was cancelled before the simulator answered *)
+                       | Some d => let '(j, es) := exec_op sv (ec_data c) (ec_vars c) (ec_fuel c) (or_root r) (or_doc r) in
+                                   json_eqb j d && Nat.eqb (List.length es) (or_reply_nerrs r)
+                       end
           | None => false end
         end) (obs_requests c));
     (* --- the properties, evaluated on the observed behaviour --- *)
@@ -228,6 +306,54 @@ Definition check_e2e_case (c : e2e_case) : list (string * bool) :=
         | Some JNull => true
         | Some j => valid_obj (ec_fuel c) S (ec_vars c) (root_of c) client_ss j && negb (has_helper_keys j)
         end);
+    ("prop.c05.whole_service", match ec_failing c, ec_perm c with
+        | _ :: _, None => if ec_conforming c then
+            let expected := fst (exec_op (with_failing (ec_mono c) (ec_failing c)) (ec_data c) (ec_vars c) (ec_fuel c) (root_of c) (o_sel (ec_op c))) in
+            let got := match obs_data c with Some j => j | None => JNull end in
+            json_eqb expected got ||
+            (* "data itself may be null when no root field could be resolved" *)
+            match got, expected with
+            | JNull, JObj kvs => forallb (fun kv => match snd kv with JNull => true | _ => false end) kvs
+            | _, _ => false end
+          else true
+        | _, _ => true end);
+    ("prop.c05.only_nulls", match obs_data0 c, nofault with
+        | Some j0, false => json_below (ec_fuel c + 20) (match obs_data c with Some j => j | None => JNull end) j0
+        | _, _ => true end);
+    ("prop.c05.accounted", match obs_data0 c, nofault with
+        | Some j0, false => json_eqb (match obs_data c with Some j => j | None => JNull end) j0 ||
+                            negb (match obs_errors c with [] => true | _ => false end)
+        | _, _ => true end);
+    ("prop.c05.named", forallb (fun e => match oe_kind e with
+                                          | ETimeout | EOther | EDownstream => oe_names_service e
+                                          | _ => true end) (obs_errors c));
+    ("prop.c03.response_confined", match ec_perm c, obs_data c with
+        | Some _, Some (JObj kvs) => valid_obj (ec_fuel c) S (ec_vars c) (root_of c) (fst (spec_filter_op (ec_perm c) (root_of c) client_ss0)) (JObj kvs)
+        | _, _ => true end);
+    ("prop.c03.no_leak_downstream", match ec_perm c with
+        | Some _ =>
+            let allowed := flat_map (type_fields (root_of c)) (fst (spec_filter_op (ec_perm c) (root_of c) client_ss0)) in
+            forallb (fun r => forallb (fun tf => mem tf allowed ||
+                                                 String.eqb (substring (String.length tf - 3) 3 tf) ".id" ||
+                                                 String.eqb (substring (String.length tf - 11) 11 tf) ".__typename")
+                                      (flat_map (type_fields (or_parent r)) (or_sel r))) (obs_requests c)
+        | None => true end);
+    ("prop.c03.errors_exact", match ec_perm c with
+        | Some _ => Nat.eqb (List.length (filter (fun e => ekind_eqb (oe_kind e) EPerm) (obs_errors c)))
+                            (snd (spec_filter_op (ec_perm c) (root_of c) client_ss0))
+        | None => true end);
+    ("prop.c03.authorized_part", match ec_perm c with
+        | Some _ => if ec_conforming c && nofault then
+            let fss := fst (spec_filter_op (ec_perm c) (root_of c) client_ss0) in
+            if valid_doc S (root_of c) fss then
+              json_eqb (fst (exec_op (ec_mono c) (ec_data c) (ec_vars c) (ec_fuel c) (root_of c) fss))
+                       (match obs_data c with Some j => j | None => JNull end)
+            else true
+          else true
+        | None => true end);
+    ("prop.c15.directives_not_forwarded", forallb (fun r => negb (existsb has_directive (or_doc r))) (obs_requests c));
+    ("prop.c15.vars_exact", forallb (fun r => seteq_str (or_varnames r) (dedupe_str (flat_map sel_vars (or_doc r))) &&
+                                              seteq_str (or_declared r) (or_varnames r)) (obs_requests c));
     ("prop.c04.valid_subqueries", forallb or_valid (obs_requests c));
     ("prop.c04.optype", forallb (fun r => if or_is_lookup r then opkind_eqb (or_keyword r) OQuery && String.eqb (or_optype r) "query"
                                           else opkind_eqb (or_keyword r) (o_kind (ec_op c)) &&
@@ -239,6 +365,10 @@ Definition check_e2e_case (c : e2e_case) : list (string * bool) :=
     ("guard.emptied_selection", negb (existsb has_emptied client_ss) && negb (match client_ss with [] => true | _ => false end));
     ("guard.abstract_condition", negb (existsb (has_abstract_cond S) client_ss));
     ("guard.merged_step_parent", match m with Ok o => negb (existsb (step_foreign_field S) (oc_plan o)) | Err _ => true end);
+    ("guard.namespace_under_fault", nofault || negb (existsb (fun s => match s with
+                                                   | SField _ n _ _ t (Some _) => match lookup (root_of c +++ "." +++ n) (g_locations (ec_gen c)) with None => true | Some _ => false end
+                                                   | _ => false end) (flat_map flat_fields client_ss)));
+    ("guard.view_has_types", forallb (fun t => match kind_of fs t with Some _ => true | None => false end) (flat_map types_used client_ss));
     ("guard.recurring_ip", match m with Ok o => negb (existsb (fun st => ip_recurring st 0) (oc_plan o)) | Err _ => true end);
     (* --- features --- *)
     ("feat.multi_service", Nat.leb 2 (List.length (dedupe_str (map or_url (obs_requests c)))));
